@@ -83,6 +83,11 @@ ALPHABET = [
     'alter type default::A create property up := str_upper(.name)',
     'alter type default::A alter property up reset expression',
     'alter type default::A drop property up',
+    # link properties going computed <-> stored (appended: replays index
+    # into this list)
+    'alter type default::B alter link a alter property w using (1)',
+    'alter type default::B alter link a alter property w reset expression',
+    'alter type default::B alter link many alter property note using ("n")',
 ]
 
 _W = {}
